@@ -37,8 +37,10 @@ type c09Root struct {
 }
 
 func (m *c09Mux) register(root string, fs vfs.FS) { m.roots.Store(root, c09Root{fs: fs}) }
-func (m *c09Mux) registerDir(root, dir string)    { m.roots.Store(root, c09Root{fs: vfs.Default, prefix: dir}) }
-func (m *c09Mux) unregister(root string)          { m.roots.Delete(root) }
+func (m *c09Mux) registerDir(root, dir string) {
+	m.roots.Store(root, c09Root{fs: vfs.Default, prefix: dir})
+}
+func (m *c09Mux) unregister(root string) { m.roots.Delete(root) }
 
 var errC09NoRoot = errors.New("c09mux: unknown root")
 
@@ -171,10 +173,10 @@ func (m *c09Mux) Stat(name string) (vfs.FileInfo, error) {
 	}
 	return fs.Stat(p)
 }
-func (m *c09Mux) PathBase(p string) string        { return path.Base(p) }
-func (m *c09Mux) PathJoin(elem ...string) string  { return path.Join(elem...) }
-func (m *c09Mux) PathDir(p string) string         { return path.Dir(p) }
-func (m *c09Mux) Unwrap() vfs.FS                  { return nil }
+func (m *c09Mux) PathBase(p string) string       { return path.Base(p) }
+func (m *c09Mux) PathJoin(elem ...string) string { return path.Join(elem...) }
+func (m *c09Mux) PathDir(p string) string        { return path.Dir(p) }
+func (m *c09Mux) Unwrap() vfs.FS                 { return nil }
 func (m *c09Mux) GetDiskUsage(p string) (vfs.DiskUsage, error) {
 	fs, r, err := m.res(p)
 	if err != nil {
